@@ -59,7 +59,7 @@ CHECKS = {
          "'Arbitrary bytes' is bounded-exhaustive over a 16-symbol alphabet incl. 0xFF and two well-formed multi-byte UTF-8 characters (<= 4 symbols quick, <= 6 thorough, after each of 4 prefixes), not all strings.", "3/C13"),
  "C14": ("serve_mc", "exhaustive enumeration of two-request histories (first response's served validators echoed in every subset) x validators x mtimes x header sets",
          "Second requests are built from the bytes the real first response carried; outcome derived from the echoed subset alone; first responses checked for Accept-Ranges, ETag, Date/Last-Modified relation, entity header presence/absence per status.",
-         "Wall clock not controlled: past mtimes are decades old; the two date echoes for the future mtime are known findings. Entity tags with comma / semicolon / '*' / backslash / obs-text / empty / 300 bytes; entity header sets incl. repeated field names and Latin-1 values.", "3/C14"),
+         "The wall clock is an input in the controlled-clock family (the checker executable defines clock_gettime; every relation of clock, modification time and the clock of the echoing request around second boundaries, 830 histories); elsewhere past mtimes are decades old. The two date echoes for a future mtime are known findings. Entity tags with comma / semicolon / '*' / backslash / obs-text / empty / 300 bytes; entity header sets incl. repeated field names and Latin-1 values.", "3/C14"),
  "C15": ("serve_mc+stream_mc", "every request of the C01-C06 spaces executed twice (GET, HEAD) and compared; streaming_body negotiated configurations with HEAD",
          "Same status, identical header multiset apart from Date/Last-Modified (within 2 s), empty ended body with exact hint 0 for 2xx/3xx/416, zero get_range calls for HEAD.",
          "Same alphabets as C01/C03/C06.", "3/C15"),
@@ -112,7 +112,7 @@ def main():
         "engines": [
             {"name": "sched_mc", "path": "/verif/harness/src/sched_mc.rs", "serves_properties": ["C10","C11","C12","C20"], "kind_free_text": "controlled-scheduler exploration of real producer/consumer threads (src/sched.rs) through the verif-hooks instrumented mutex; DFS over choice vectors, iterative preemption bounding, replayable schedules"},
             {"name": "loomchk", "path": "/verif/loomchk/src/main.rs", "serves_properties": ["C10","C11"], "kind_free_text": "loom (DPOR) exploration of the real /repo/src/chunker.rs and gzip.rs, compiled into the checker crate by #[path] inclusion with the verif-hooks mutex seam bound to loom::sync::Mutex; a second explorer next to sched_mc, run by ./check C10 and ./check C11"},
-            {"name": "fs_mc", "path": "/verif/harness/src/fs_mc.rs", "serves_properties": ["C18","C19"], "kind_free_text": "enumeration of file/range/fault-point and path-string spaces on real files, std::fs as reference"},
+            {"name": "fs_mc", "path": "/verif/harness/src/fs_mc.rs", "serves_properties": ["C18","C19"], "kind_free_text": "enumeration of file/range/fault-point and path-string spaces on real files, std::fs as reference; src/sysched.rs: read/pread/lseek/clock_gettime defined by the checker executable (link-time interposition) -- exhaustive interleavings of the file system calls of threads sharing one entity, short-read / errno answers at every read call, controlled wall clock (C14)"},
             {"name": "stream_mc", "path": "/verif/harness/src/stream_mc.rs", "serves_properties": ["C08","C09","C11","C12","C17","C20"], "kind_free_text": "stateless exhaustive exploration of operation histories of the real streaming_body writer/body pair, byte-vector reference model, independent gzip decoder"},
             {"name": "neg_mc", "path": "/verif/harness/src/neg_mc.rs", "serves_properties": ["C15","C16","C17"], "kind_free_text": "exhaustive enumeration of the Accept-Encoding language and of negotiated streaming_body configurations against an independent RFC 7231 evaluator"},
             {"name": "serve_mc", "path": "/verif/harness/src/serve_mc.rs", "serves_properties": ["C01","C02","C03","C04","C05","C06","C07","C12","C13","C14","C15","C20"], "kind_free_text": "stateless exhaustive exploration of the real serve(): requests x entities x scripted entity-stream answers, reference-model oracle (src/oracle)"},
